@@ -256,6 +256,31 @@ func (r *ctxRunner) runInst(s, d int, only *ctxCase) {
 			}
 		}
 	}
+	if only == nil || only.Pass == "uneven" {
+		// source longer than the destination, and the other way round (blocked loops anchor their tail
+		// block at the end of the wrong buffer): lengths that are not multiples of the usual block sizes
+		for vi, n := range []int{130, 300, 1100} {
+			for which := 0; which < 2; which++ {
+				if only != nil && (only.Spec != vi || only.Pos != which) {
+					continue
+				}
+				in := make([]uint64, n)
+				for i := range in {
+					in[i] = sp[(i+i/len(sp))%len(sp)]
+				}
+				out := make([]uint64, n)
+				se, de := 37, 0
+				if which == 1 {
+					se, de = 0, 37
+				}
+				dyn.ConvBlockUneven(s, d, n, 1, se, de)(in, out)
+				for i := range in {
+					r.check(mk("uneven", 1, vi, which), s, d, in[i], out[i], base,
+						fmt.Sprintf("[%d samples converted, source %d and destination %d frames longer; position %d]", n, se, de, i))
+				}
+			}
+		}
+	}
 	if only == nil || only.Pass == "provenance" {
 		// the source buffer came about in an unusual way (dyn.ConvVia): filled only through windows of
 		// it, recycled by a pool, or first the destination of another conversion.  State that a buffer
